@@ -246,6 +246,72 @@ func (s *Session) exec(c Call) (string, error) {
 			return "", err
 		}
 		return fmt.Sprint(n), nil
+	case "hread", "hreadat":
+		file, ok := s.Handles[c.int(0)]
+		if !ok {
+			return "", errBadHandle
+		}
+		buf := make([]byte, c.int(1))
+		var k int
+		var err error
+		if c.Method == "hread" {
+			k, err = file.Read(buf)
+		} else {
+			k, err = file.ReadAt(buf, c.int(2))
+		}
+		if err != nil && err != io.EOF {
+			return "", err
+		}
+		if k < 0 {
+			k = 0
+		}
+		eof := "0"
+		if err == io.EOF {
+			eof = "1"
+		}
+		return fmt.Sprintf("%d %d %s", k, PolyHash(buf[:k]), eof), nil
+	case "hseek":
+		file, ok := s.Handles[c.int(0)]
+		if !ok {
+			return "", errBadHandle
+		}
+		o, err := file.Seek(c.int(1), int(c.int(2)))
+		if err != nil {
+			return "", err
+		}
+		return fmt.Sprint(o), nil
+	case "hwriteat":
+		file, ok := s.Handles[c.int(0)]
+		if !ok {
+			return "", errBadHandle
+		}
+		n, err := file.WriteAt(GenBytes(int(c.int(1)), c.int(2)), c.int(3))
+		if err != nil {
+			return "", err
+		}
+		return fmt.Sprint(n), nil
+	case "htruncate":
+		file, ok := s.Handles[c.int(0)]
+		if !ok {
+			return "", errBadHandle
+		}
+		return "", file.Truncate(c.int(1))
+	case "hstat":
+		file, ok := s.Handles[c.int(0)]
+		if !ok {
+			return "", errBadHandle
+		}
+		i, err := file.Stat()
+		if err != nil {
+			return "", err
+		}
+		return InfoString(i), nil
+	case "hname":
+		file, ok := s.Handles[c.int(0)]
+		if !ok {
+			return "", errBadHandle
+		}
+		return EncName(file.Name()), nil
 	case "hsync":
 		file, ok := s.Handles[c.int(0)]
 		if !ok {
